@@ -83,6 +83,9 @@ MUTANTS = [
     ("C13", "detect", "generation/hypothesis/builder.py", "        phases = tuple(phase for phase in settings.phases if phase not in (Phase.reuse, Phase.generate))", "        phases = tuple(phase for phase in settings.phases if phase not in (Phase.reuse,))", "generate phase kept although fuzzing is off"),
     # ---- C14
     ("C14", "detect", "transport/prepare.py", "        final_headers.update(headers)", "        for k, v in headers.items(): final_headers.setdefault(k, v)", "explicit headers no longer win"),
+    ("C14", "detect", "generation/hypothesis/builder.py", "            if container is None:\n                setattr(case, container_name, value)\n            else:\n                container.update(value)", "            if container is None:\n                setattr(case, container_name, value)", "coverage cases with a generated container lose the override"),
+    ("C14", "detect", "generation/hypothesis/builder.py", "        auths.set_on_case(case, auth_context, auth_storage)\n        for container_name, value in overrides.items():", "        for container_name, value in overrides.items():", "coverage cases are sent without the configured auth"),
+    ("C14", "detect", "engine/phases/unit/__init__.py", "        kwargs[\"headers\"] = {**headers, **kwargs.get(\"headers\", {})}", "        kwargs[\"headers\"] = headers", "header overrides dropped when custom headers are configured (F14a regression)"),
     # ---- C15
     ("C15", "detect", "core/output/sanitization.py", "            lower_key = key.lower()", "            lower_key = key", "case-sensitive key match"),
     ("C15", "detect", "core/output/sanitization.py", "if lower_key in config.keys_to_sanitize or any(", "if lower_key in config.keys_to_sanitize and any(", "marker rule conjoined"),
